@@ -95,6 +95,46 @@ insensitive to how the code is written.
     for e in eq:
         s += "| `%s` | %s | %s |\n" % e
 
+# ---- mutation campaign
+mr = os.path.join(V, "tools", "mutation_report.json")
+if os.path.exists(mr):
+    R = json.load(open(mr))
+    sm = R["summary"]
+    rowsm = R["suite_survivors"]
+    killed = [r for r in rowsm if r["verdict"].startswith("killed")]
+    kin = sum(1 for r in killed if "no-failing-input-found" not in r["verdict"])
+    surv = [r for r in rowsm if not r["verdict"].startswith("killed")]
+    unreached = [r for r in surv if r["verdict"].startswith("unreached")]
+    eq = [r for r in surv if r["triage"].lower().startswith(("equivalent", "unreached", "outside", "default"))]
+    s += '''
+### Mutation campaign (automatic first-order mutants; `tools/mutants.py`, `tools/mutcampaign.py`, `tools/covermap.py`)
+
+A complement to the agent-written changes: every single-token mutant of netaddr's non-test source (comparison boundary/negation,
+`+`/`-`, shifts, `&`/`|`/`^`, integer constants ±1, `True`/`False`, `and`/`or`, dropped `not`, negated `if`/`while` condition,
+statement replaced by `pass`, `break`/`continue`; nothing inside `raise`/`assert`) was generated as a text edit: **%d mutants**.
+Stage 1 ran the pinned suite on each (scratch copies): %d are killed by the suite, **%d survive it** — these are the "changes that
+still pass the tests".  Stage 2 ran, for each survivor, the quick checks whose implementation side reaches the mutated line
+(line coverage of every check measured by `tools/covermap.py`: %s), most specific first, at most five, in scratch copies of /verif;
+a mutant counts as noticed at the first `VIOLATION`.  **%d of the %d survivors are reported as violations (%d with a concrete
+failing input, %d as `no-failing-input-found` — a broken source-tie obligation on a behaviour-preserving edit), %d are not.**
+Every one of the %d not reported was read by hand (`tools/mutation_triage.json`): %d are behaviour-preserving or outside every
+property (dead Python-2 branches, defaults never used, early exits of sorted scans, values of dicts used as sets, reflected
+comparisons, type guards), %d sit on lines no check reaches (listed by `tools/uncovered.py`: `__oct__`/`__long__`, the
+NotImplemented arms of comparisons with foreign types, Python-2 fallbacks, registry-building code of `ieee.py`); the rest are listed
+below with what was done.  The coverage measurement itself led to additions (OUI/IAB text form, pickling and `EUI.info` in C19,
+EUI compared with its text/int form in C08, equality with foreign objects in C12, constructor defaults in C01/C03).
+
+| mutant | where | edit | verdict | triage |
+|---|---|---|---|---|
+''' % (sm["mutants"], sm["killed_by_pinned_suite"], sm["survived_suite"], sm.get("coverage", "see tools/uncovered.py"),
+       len(killed), len(rowsm), kin, len(killed) - kin, len(surv), len(surv), len(eq), len(unreached))
+    for r in surv:
+        if r in eq:
+            continue
+        s += "| `%s` | %s:%d `%s` | `%s` → `%s` | %s | %s |\n" % (r["id"], r["file"].replace("netaddr/", ""), r["line"], r["func"],
+                  r["old"][:40].replace("|", "/").replace("\n", " "), r["new"][:40].replace("|", "/").replace("\n", " "),
+                  r["verdict"][:40], r["triage"] or "NOT TRIAGED")
+
 # ---- §14 status per property
 kf = json.load(open(os.path.join(V, "known_findings.json")))["findings"]
 s += '''
